@@ -778,6 +778,26 @@ def t_hetfacts():
     facts['J_from_F_shape'] = all(x in jf for x in ("J = F.copy()", "for t in range(1, J.shape[1]):", "J[1:, t] += J[:-1, t - 1]", "return J"))
     bf = U('HetBlock.build_F')
     facts['build_F_shape'] = all(x in bf for x in ("Tpost = curlyEs.shape[0] - T + 2", "F[0, :] = curlyYs", "F[1:, :] = curlyEs.reshape((Tpost + T - 2, -1)) @ curlyDs.reshape((T, -1)).T"))
+    bfn = U('HetBlock.backward_fakenews')
+    facts['backward_fakenews_shape'] = all(x in bfn for x in ("din_dict = {input_shocked: 1}",
+        "curlyV, curlyD, curlyY = self.backward_step_fakenews(din_dict, output_list, differentiable_backward_fun, differentiable_hetoutput, law_of_motion, exog, True)",
+        "curlyDs[0, ...] = curlyD", "curlyYs[k][0] = curlyY[k]", "for t in range(1, T):",
+        "curlyV, curlyDs[t, ...], curlyY = self.backward_step_fakenews({k + '_p': v for k, v in curlyV.items()}, output_list, differentiable_backward_fun, differentiable_hetoutput, law_of_motion, exog)",
+        "curlyYs[k][t] = curlyY[k]", "return (curlyYs, curlyDs)"))
+    ev = U('HetBlock.expectation_vectors')
+    facts['expectation_vectors_shape'] = all(x in ev for x in ("curlyEs[0, ...] = utils.misc.demean(law_of_motion[0].expectation(o_ss))", "for t in range(1, T):",
+        "curlyEs[t, ...] = utils.misc.demean(law_of_motion.expectation(curlyEs[t - 1, ...]))", "return curlyEs"))
+    jc = U('HetBlock._jacobian')
+    facts['jacobian_pipeline_shape'] = all(x in jc for x in ("law_of_motion = CombinedTransition([exog, endog]).forward_shockable(ss['Dbeg'])",
+        "curlyYs[i], curlyDs[i] = self.backward_fakenews(i, outputs, T, differentiable_backward_fun, differentiable_hetinputs, differentiable_hetoutputs, law_of_motion, exog_by_output)",
+        "curlyPs[o] = self.expectation_vectors(ss[o], T - 1, law_of_motion)", "F[o.upper()][i] = HetBlock.build_F(curlyYs[i][o], curlyDs[i], curlyPs[o])",
+        "J[o.upper()][i] = HetBlock.J_from_F(F[o.upper()][i])"))
+    sfk = U('HetBlock.backward_step_fakenews')
+    facts['backward_step_fakenews_shape'] = all(x in sfk for x in ("Dbeg, D = (law_of_motion[0].Dss, law_of_motion[1].Dss)", "shocked_outputs = differentiable_backward_fun.diff(din_dict)",
+        "curlyV = {k: law_of_motion[0].expectation(shocked_outputs[k]) for k in self.backward}", "curlyD = law_of_motion.forward_shock([shocks_to_exog, policy_shock])",
+        "curlyY = {k: np.vdot(D, shocked_outputs[k]) for k in output_list}", "curlyY[k] += np.vdot(Dbeg, shock)", "return (curlyV, curlyD, curlyY)"))
+    dmn = ast.unparse(find_def('utilities/misc.py', 'demean'))
+    facts['demean_subtracts_mean'] = 'return x - x.sum() / x.size' in dmn
     sfn = U('HetBlock.backward_step_fakenews')
     facts['hetoutput_derivative_sees_direct_input'] = "differentiable_hetoutput.diff({**shocked_outputs, **din_dict}, outputs=differentiable_hetoutput.outputs & output_list)" in sfn
     fun = 'utilities/function.py'
